@@ -347,6 +347,12 @@ class Prop(object):
                 kinds.add(kind)
                 self._fail(r, kind, idx, case, detail)
         # ---- canonical state: model multiset + alias layout (identifier -> ordered key names per layer)
+        try:
+            A.keyring_keys(kr), A.keyring_aliases(kr)
+        except A.HarnessBinding:
+            # the keyring's internals are laid out differently in this tree: tell states apart by what is loaded and in which order it was loaded
+            # (finer than the alias layout, so nothing is merged that should not be; the search only gets slower)
+            return repr(('load-order', tuple((n, x is not None) for n, _f, _p, x in loaded)))
         byid = {}
         for pkid, k in A.keyring_keys(kr).items():
             top = k.parent if k.parent is not None else k
